@@ -303,6 +303,94 @@ example : (convertOn lowerAscii
       svRows := [[(["type".toList], "simserial".toList), (["name".toList], "s".toList)]] } [W.orOther]).toOption.map (·.2)
     = some [W.orOther, W.misspell "settings".toList ["setting".toList], W.deprecated 2 "simserial".toList] := by decide +kernel
 
+/-! ## The whole workbook: model = specification -/
+
+theorem misspell_eq (lower : Str → Str) (key : String) (names : List Str) :
+    misspellW lower key names = misspellDue lev lower key names := by
+  have hf : misspellCands lower supported key.toList names
+      = names.filter (isMisspelling lev lower supported key.toList) := by
+    unfold misspellCands
+    apply List.filter_congr
+    intro s _
+    simp [isMisspelling, lev_correct]
+  unfold misspellW findSheetMisspellings misspellDue
+  rw [hf]
+  cases names.filter (isMisspelling lev lower supported key.toList) <;> rfl
+
+theorem mem_missingToW (sheet : String) (m : List (Str × List Str)) (w : W) :
+    w ∈ missingToW sheet m ↔ ∃ l c, w = W.missingTr sheet.toList l c ∧ ∃ cols, (l, cols) ∈ m ∧ c ∈ cols := by
+  simp only [missingToW, List.mem_flatMap, List.mem_map]
+  constructor
+  · rintro ⟨e, he, c, hc, rfl⟩; exact ⟨e.1, c, rfl, e.2, he, hc⟩
+  · rintro ⟨l, c, rfl, cols, he, hc⟩; exact ⟨(l, cols), he, c, hc, rfl⟩
+
+theorem mem_missingDue (sheet : String) (ps : List (Str × Str)) (w : W) :
+    w ∈ missingDue sheet ps ↔ ∃ l c, w = W.missingTr sheet.toList l c ∧ trMissing ps l c = true := by
+  simp only [missingDue, List.mem_flatMap, List.mem_map, List.mem_filter, List.mem_eraseDups]
+  constructor
+  · rintro ⟨l, _, c, ⟨_, h⟩, rfl⟩; exact ⟨l, c, rfl, h⟩
+  · rintro ⟨l, c, rfl, h⟩
+    have h' := h
+    simp only [trMissing, Bool.and_eq_true, List.any_eq_true, decide_eq_true_eq] at h'
+    obtain ⟨⟨⟨p, hp, rfl⟩, ⟨q, hq, rfl⟩⟩, _⟩ := h'
+    exact ⟨p.2, ⟨p, hp, rfl⟩, q.1, ⟨⟨q, hq, rfl⟩, h⟩, rfl⟩
+
+theorem missing_eq (sheet : String) (tbl : Aliases) (hs : List (List Str)) (hsh : trShort tbl hs = true) (w : W) :
+    w ∈ missingToW sheet (findMissing (findTranslations tbl hs)) ↔ w ∈ missingDue sheet (trPairs tbl hs) := by
+  rw [mem_missingToW, mem_missingDue]
+  constructor
+  · rintro ⟨l, c, rfl, h⟩; exact ⟨l, c, rfl, (missing_translation_iff tbl hs hsh l c).mp h⟩
+  · rintro ⟨l, c, rfl, h⟩; exact ⟨l, c, rfl, (missing_translation_iff tbl hs hsh l c).mpr h⟩
+
+/-- **Capstone.**  Whenever the model converts a workbook (header shapes `col` / `col::lang` for the translatable
+    columns), the warnings it emits are — as a set, every kind and subject — exactly the warnings due by the trigger
+    predicates of the specification. -/
+theorem model_meets_spec (lower : Str → Str) (wb : WB) (v : View) (res : Res) (ws : List W)
+    (hsv : trShort surveyTrTable v.svHeaders = true) (hch : trShort choicesTrTable v.chHeaders = true)
+    (h : convertOn lower wb v [] = .ok (res, ws)) (w : W) :
+    w ∈ ws ↔ w ∈ dueOn lev lower wb v := by
+  rw [convertOn_eq] at h
+  cases hcw : choicesWarnings (groupChoices (numberFrom 2 v.chRows)) with
+  | error e => simp [hcw] at h
+  | ok chW =>
+    simp only [hcw, List.nil_append] at h
+    cases hrl : rowLoop 2 v.svRows { warnings := preRows lower wb v chW } with
+    | error e => simp [hrl] at h
+    | ok st =>
+      simp only [hrl, Except.ok.injEq, Prod.mk.injEq] at h
+      obtain ⟨_, rfl⟩ := h
+      obtain ⟨hw, ho⟩ := rowLoop_ok _ _ _ _ hrl
+      simp only [Bool.false_or] at ho
+      rw [hw, ho, or_other_iff _ _ hsv hch]
+      have hchoice := choice_no_label_iff (numberFrom 2 v.chRows) chW hcw w
+      unfold preRows dueOn missingCheck
+      rw [misspell_eq, misspell_eq]
+      simp only [List.mem_append, missing_eq "survey" _ _ hsv, missing_eq "choices" _ _ hch]
+      by_cases hce : wb.choices.isEmpty = true
+      · simp only [hce, if_true, List.mem_append, or_assoc]
+      · have hce' : wb.choices.isEmpty = false := by simpa using hce
+        simp only [hce', Bool.false_eq_true, if_false, List.mem_append, hchoice, or_assoc]
+
+/-- the same at the level of `workbook_to_json` (header processing included): warnings of the model = warnings due -/
+theorem workbook_meets_spec (lower : Str → Str) (wb : WB) (res : Res) (ws : List W)
+    (h : workbookToJson lower wb [] = .ok (res, ws)) :
+    ∃ v, view wb = .ok v ∧ workbookDue lev lower wb = .ok (dueOn lev lower wb v) ∧
+      (trShort surveyTrTable v.svHeaders = true → trShort choicesTrTable v.chHeaders = true →
+        ∀ w, w ∈ ws ↔ w ∈ dueOn lev lower wb v) := by
+  unfold workbookToJson at h
+  cases hv : view wb with
+  | error e => simp [hv] at h
+  | ok v =>
+    simp only [hv] at h
+    refine ⟨v, rfl, by simp [workbookDue, hv], fun hsv hch w => model_meets_spec lower wb v res ws hsv hch h w⟩
+
+example : (convertOn lowerAscii
+    { sheetNames := ["survey".toList, "setting".toList], surveyHeader := [], survey := [], choicesHeader := [], choices := [],
+      settingsHeader := [], settingsRows := 0, hasEntities := false }
+    { chHeaders := [], chRows := [], svHeaders := [["type".toList], ["name".toList]],
+      svRows := [[(["type".toList], "simserial".toList), (["name".toList], "s".toList)]] } []).toOption.map (·.2)
+    = some [W.misspell "settings".toList ["setting".toList], W.deprecated 2 "simserial".toList] := by decide +kernel
+
 /-! ## the tables the triggers are read from (pinned: the documented sets) -/
 
 /-- the deprecated metadata types of the documentation -/
